@@ -113,6 +113,10 @@ func (cache *Queue) Push(item Scorer) error {
 	sv := cache.CreateSkipValue(item)
 	if int64(cache.Size()) >= cache.maxsize {
 		tail := cache.Last()
+		if tail == nil {
+			//maxsize <= 0: 队列为空但已满，没有可以被替换的元素
+			return types.ErrMemFull
+		}
 		lasthash := string(tail.Hash())
 		cmp := sv.Compare(cache.CreateSkipValue(tail))
 		if cmp == Big || (cmp == Equal && item.Compare(tail) == Big) {
